@@ -209,30 +209,42 @@ class Sorts:
             s = self.Json
         elif k == "List":
             es = self.sort(t.elem)
-            d = z3.Datatype("L_%s" % _mangle(t.elem))
-            d.declare("mk", ("len", z3.IntSort()), ("el", z3.ArraySort(z3.IntSort(), es)))
+            nm = "L_%s" % _mangle(t.elem)
+            d = z3.Datatype(nm)
+            # constructor / accessor names are unique per sort so that SMT-LIB dumps are readable by other solvers
+            d.declare("mk_" + nm, ("len_" + nm, z3.IntSort()), ("el_" + nm, z3.ArraySort(z3.IntSort(), es)))
             s = d.create()
+            s.mk, s.len, s.el = s.constructor(0), s.accessor(0, 0), s.accessor(0, 1)
         elif k == "Set":
             s = z3.ArraySort(self.sort(t.elem), z3.BoolSort())
         elif k == "Tuple":
-            d = z3.Datatype("T_%s" % "_".join(_mangle(e) for e in t.elems))
-            d.declare("mk", *[("f%d" % i, self.sort(e)) for i, e in enumerate(t.elems)])
+            nm = "T_%s" % "_".join(_mangle(e) for e in t.elems)
+            d = z3.Datatype(nm)
+            d.declare("mk_" + nm, *[("f%d_%s" % (i, nm), self.sort(e)) for i, e in enumerate(t.elems)])
             s = d.create()
+            s.mk = s.constructor(0)
         elif k == "Record":
-            d = z3.Datatype("R_%s" % "_".join(_mangle(e) for e in t.elems) + "_" + _mangle_text("|".join(t.names)))
-            d.declare("mk", *[("f%d" % i, self.sort(e)) for i, e in enumerate(t.elems)])
+            nm = "R_%s" % "_".join(_mangle(e) for e in t.elems) + "_" + _mangle_text("|".join(t.names))
+            d = z3.Datatype(nm)
+            d.declare("mk_" + nm, *[("f%d_%s" % (i, nm), self.sort(e)) for i, e in enumerate(t.elems)])
             s = d.create()
+            s.mk = s.constructor(0)
         elif k == "Dict":
-            d = z3.Datatype("D_%s_%s" % (_mangle(t.k), _mangle(t.v)))
+            nm = "D_%s_%s" % (_mangle(t.k), _mangle(t.v))
+            d = z3.Datatype(nm)
             ks, vs = self.sort(t.k), self.sort(t.v)
-            d.declare("mk", ("dom", z3.ArraySort(ks, z3.BoolSort())), ("val", z3.ArraySort(ks, vs)))
+            d.declare("mk_" + nm, ("dom_" + nm, z3.ArraySort(ks, z3.BoolSort())), ("val_" + nm, z3.ArraySort(ks, vs)))
             s = d.create()
+            s.mk, s.dom, s.val = s.constructor(0), s.accessor(0, 0), s.accessor(0, 1)
         elif k == "Opt":
             inner = self.sort(t.t)
-            d = z3.Datatype("O_%s" % _mangle(t.t))
-            d.declare("none")
-            d.declare("some", ("val", inner))
+            nm = "O_%s" % _mangle(t.t)
+            d = z3.Datatype(nm)
+            d.declare("none_" + nm)
+            d.declare("some_" + nm, ("val_" + nm, inner))
             s = d.create()
+            s.none, s.some, s.val = s.constructor(0)(), s.constructor(1), s.accessor(1, 0)
+            s.is_none, s.is_some = s.recognizer(0), s.recognizer(1)
         else:
             raise ValueError("no sort for %r" % (t,))
         self._cache[key] = s
